@@ -58,7 +58,7 @@ def run(ctx):
         "A repository-wide scan confirms the single writer of the registered attribute."
     )
     ctx.assumptions = ["Repeater.read_snmp_values (network I/O) is replaced by a no-op, as the property's hook note says",
-                       "datagram bodies are arbitrary bytes of a fixed analysed length (32 for P2P, 240 for RDAC)"]
+                       "datagram bodies are arbitrary bytes of the analysed lengths (P2P: 32 and the lengths around every constant the handlers compare len(data) with; RDAC: 240)"]
     ctx.rule("gate/reject-unregistered", "a start-up request or ping from an address without a registered repeater is answered by exactly one single-byte 0x00 datagram to the requester and nothing else")
     ctx.rule("gate/serve-registered", "a registered repeater's request is answered only to its stored outbound address, the requester, or (requester ip, p2p port); never with the reject")
     ctx.rule("gate/registration", "a registration request creates/marks exactly the sender's repeater as registered and answers its outbound address")
@@ -99,13 +99,27 @@ def p2p(ctx):
     kinds["unknown-command"] = {0: cmd[0], 1: cmd[1], 2: cmd[2], 20: 0x77}
     kinds["ping"] = {0: 0x00, **{4 + i: ping[i] for i in range(len(ping))}}
     kinds["idle"] = {0: 0x00, 4: 0x00}
-    for kind, fixed in kinds.items():
+    # datagram lengths: the default 32 and every length around a constant the handlers compare len(data) with
+    lens = {32}
+    for fi in pci.methods.values():
+        for n in ast.walk(fi.node):
+            if isinstance(n, ast.Compare) and any(isinstance(x, ast.Call) and isinstance(x.func, ast.Name) and x.func.id == "len" for x in [n.left] + list(n.comparators)):
+                for x in [n.left] + list(n.comparators):
+                    for y in ast.walk(x):
+                        try:
+                            c = repo.fold_expr(y, fi.module, pci) if isinstance(y, (ast.Constant, ast.Attribute, ast.BinOp, ast.Name)) and not (isinstance(y, ast.Name) and y.id in fi.params) else None
+                        except Exception:
+                            c = None
+                        if isinstance(c, int) and not isinstance(c, bool) and 0 < c < 200:
+                            lens.update({c, c + 1, c + 2})
+    ctx.extra["p2p_datagram_lengths"] = sorted(lens)
+    for kind, fixed, L in [(k, f, L) for k, f in kinds.items() for L in sorted(lens) if max(f) < L]:
         for state in ("unknown", "known-unregistered", "registered"):
-            key = f"{dr.qualname} | {kind},{state}"
+            key = f"{dr.qualname} | {kind},{state}" + ("" if L == 32 else f",{L} octets")
             I = Interp(repo)
             no_snmp(I, repo)
 
-            def run_p(st, fixed=fixed, state=state):
+            def run_p(st, fixed=fixed, state=state, L=L):
                 I.st = st
                 storage = I.construct(sci, [], {})
                 other = I.call(repo.find_method(sci, "match_incoming"), [storage], {"address": B, "auto_create": True})
@@ -120,7 +134,7 @@ def p2p(ctx):
                 h = I.construct(pci, [], {"storage": storage})
                 h.attrs["transport"] = AExt("transport")
                 del st.effects[:]
-                I.call(dr, [h, sym_bytes(I, "d", 32, fixed), A], {})
+                I.call(dr, [h, sym_bytes(I, "d", L, fixed), A], {})
                 return storage, rpt, other, h
 
             for st, (k, v) in explore(run_p, max_paths=200):
